@@ -156,7 +156,7 @@ def rand_tr(rnd, prefix, pre, sym=True, rot=True, budget=None):
     return disp + list(R)
 
 
-def fill_deck(rnd, depth=1, reuse=False, spelling=None, inner='slab', nsym=3):
+def fill_deck(rnd, depth=1, reuse=False, spelling=None, inner='slab', nsym=3, empty_cell=None):
     """Container(s) at level 0 filled with a universe; optionally a second level."""
     d = dk.Deck()
     pre = []
@@ -219,6 +219,9 @@ def fill_deck(rnd, depth=1, reuse=False, spelling=None, inner='slab', nsym=3):
             m, rho = mat() if rnd.random() < 0.8 else (0, None)
             c = new_cell(expr=rg, mat=m, rho=rho, imp=1, u=u)
             cells.append(c)
+        if (rnd.random() < 0.2) if empty_cell is None else (empty_cell and level == 1):
+            # a patently empty cell in the universe: nothing may be written for it, whatever the inlining
+            new_cell(expr=('and', ('s', -s), ('s', s)), imp=1, u=u)
         if level < depth:
             # fill the first cell of this universe with a deeper universe
             fc = cells[0]
